@@ -525,6 +525,14 @@ def prewrite_cases(tier):
                           "files": {"lhs.yaml": lhs, "rhs.yaml": rhs, "target.yaml": TARGET_OLD},
                           "argv": fmt + ["--output=@D/" + out, "@D/lhs.yaml", "@D/rhs.yaml"], "target": out,
                           "documented": True, "backup": False, "stale": False})
+    # --output written with a leading ~ (the shell leaves --output=~/x alone): whatever the tool makes of the text, the
+    # existing file that ~ names under $HOME is not replaced
+    for cause, (lhs, rhs) in {"existing-output(tilde-path,inputs-merge-fine)": (MERGE_LHS_OK, MERGE_RHS_OK),
+                              "existing-output(tilde-path,inputs-conflict)": ("a:\n  b: 1\n", "a:\n  - 1\n")}.items():
+        cases.append({"part": "a", "tool": "merge", "cause": cause, "doc": "output-existing",
+                      "files": {"lhs.yaml": lhs, "rhs.yaml": rhs, "target.yaml": TARGET_OLD}, "env": {"HOME": "@D"},
+                      "argv": ["--output=~/target.yaml", "@D/lhs.yaml", "@D/rhs.yaml"], "target": "target.yaml",
+                      "documented": True, "backup": False, "stale": False})
     for cause, argv in {"args-backup-without-overwrite": ["-b", "-o", "@D/new.yaml", "@D/lhs.yaml", "@D/rhs.yaml"],
                         "args-backup-to-stdout": ["-b", "@D/lhs.yaml", "@D/rhs.yaml"],
                         "args-output-and-overwrite": ["-o", "@D/new.yaml", "-w", "@D/target.yaml", "@D/lhs.yaml", "@D/rhs.yaml"],
@@ -560,7 +568,17 @@ def cause_group(cause):
 def check_prewrite(col, box, case):
     wd = box.fresh(case["files"])
     before = box.snapshot()
-    r = run_main(case["tool"], subst(case["argv"], wd), case.get("stdin"))
+    saved_env = {k: os.environ.get(k) for k in case.get("env", {})}
+    for k, v in case.get("env", {}).items():
+        os.environ[k] = v.replace("@D", wd)
+    try:
+        r = run_main(case["tool"], subst(case["argv"], wd), case.get("stdin"))
+    finally:
+        for k, v in saved_env.items():
+            if v is None:
+                os.environ.pop(k, None)
+            else:
+                os.environ[k] = v
     after = box.snapshot()
     box.drop()
     tool, cause = PROGS[case["tool"]], case["cause"]
